@@ -3,6 +3,7 @@ CONSTANTS
   Procs <- P2
   Types <- SharedTypes
   ChildSeq <- SharedChild
+  Invalid <- NoneInvalid
   Pkg <- SharedPkg
   CallChoices <- SharedCalls2
   Guard = "none"
